@@ -31,7 +31,8 @@ ROBUST_TOL = 1e-6               # margin asked of a counterexample before it is 
 class Mode:
     symbolic = True
 
-    def __init__(self, values=None, tol=1e-9):
+    def __init__(self, values=None, tol=1e-9, generic=False):
+        self.generic = generic        # concrete mode: inputs without a given value get generic distinct values (recorded in .values)
         self.values = values          # None => symbolic; dict name -> number => concrete
         self.symbolic = values is None
         self.inputs = {}              # name -> ("real"|"int", z3 const)
@@ -57,6 +58,14 @@ class Mode:
             if positive:
                 ctx.add(c > 0)
             return x
+        if self.generic and name not in self.values:
+            i = len(self.values)
+            g = Fraction(37 + 61 * i, 100)
+            if hi is not None and g > Fraction(hi):
+                g = Fraction(hi) - (Fraction(hi) - Fraction(lo if lo is not None else 0)) * Fraction(1 + i % 7, 9)
+            if lo is not None and g < Fraction(lo):
+                g = Fraction(lo)
+            self.values[name] = str(g)
         v = self.values.get(name, 0)
         return float(Fraction(v)) if isinstance(v, str) else float(v)
 
@@ -70,13 +79,25 @@ class Mode:
             if hi is not None:
                 ctx.add(c <= hi)
             return SInt(c)
+        if self.generic and name not in self.values:
+            i = len(self.values)
+            g = 3 + 2 * (i % 50)
+            if lo is not None and lo < 0 and i % 2:
+                g = -g                                       # signed fields: both signs occur
+            if hi is not None and g > hi:
+                g = hi - (i % 3) if (lo is None or hi - (i % 3) >= lo) else hi
+            if lo is not None and g < lo:
+                g = lo + (i % 3) if (hi is None or lo + (i % 3) <= hi) else lo
+            self.values[name] = g
         return int(Fraction(self.values.get(name, 0)))
 
     def number(self, name, dtype, **kw):
         """A scalar of the given numpy dtype kind (int dtypes -> integer-valued)."""
         if np.dtype(dtype).kind in "iu":
-            # integer dtypes: values the dtype can hold (int64: within 2^53 so that they survive a float conversion)
-            lim = 2 ** 31 - 1 if np.dtype(dtype).itemsize <= 4 else 2 ** 53
+            # integer dtypes: values the dtype can hold (int64: within 2^40, so that they and the half-integers next to them
+            # survive the float64 conversions of mixed int/float operations; beyond that IEEE rounding decides, which
+            # the real-arithmetic model does not cover)
+            lim = 2 ** 31 - 1 if np.dtype(dtype).itemsize <= 4 else 2 ** 40
             b = {k: v for k, v in kw.items() if k in ("lo", "hi")}
             b.setdefault("lo", -lim)
             b.setdefault("hi", lim)
@@ -257,8 +278,10 @@ class Mode:
         return self.And([self.close(x, y, tol, scale) for x, y in zip(xs, ys)])
 
     # ---------------------------------------------------------------- obligations
-    def check(self, label, formula, key=None, info=None, timeout_ms=None, drop=None):
-        """Obligation: the formula holds on this path for all inputs."""
+    def check(self, label, formula, key=None, info=None, timeout_ms=None, drop=None, prefer=None):
+        """Obligation: the formula holds on this path for all inputs.  `prefer`: extra constraints tried when a
+        counterexample model is chosen (they select, among the violating inputs, ones whose effect is visible
+        end to end); they never influence the verdict."""
         self.nchecks += 1
         key = key or label
         if self.symbolic:
@@ -275,6 +298,13 @@ class Mode:
                 r2, m2 = core.solve(c.pc + [z3.Not(f2)], timeout_ms)
                 if r2 == "sat":
                     c.obligations[-1]["model"] = m2
+                if prefer:
+                    pf = [self._fix_tol(self._f(x)) for x in prefer]
+                    for neg in (z3.Not(f2), z3.Not(f1)):
+                        r3, m3 = core.solve(c.pc + [neg] + pf, timeout_ms)
+                        if r3 == "sat":
+                            c.obligations[-1]["model"] = m3
+                            break
             return r == "unsat"
         ok = bool(formula)
         (self.passed if ok else self.failed).append(key)
